@@ -21,6 +21,8 @@ pub use crate::value::{
     StringLines, VTable,
 };
 
+pub use crate::value::list::verif as list_verif;
+
 /// Relative associativity of two binary operators as a small integer
 /// (0 = left, 1 = right, 2 = not allowed)
 pub fn relative_associativity(a: &BinOp, b: &BinOp) -> u8 {
